@@ -339,15 +339,16 @@ def run(ctx, prop, cases_override=None):
         drift += ["case %s: %s" % (cid, json.dumps(d)[:400]) for cid, d in prints(j, "DRIFT")]
         conc += [(cid, d) for cid, d in prints(j, "CONC")]
     if conc:
-        raise MachineryError("the specification's PromQL semantics disagrees with the real engine on %d results, e.g. %s"
-                             % (len(conc), json.dumps(conc[0][1])[:1500]))
+        qs = sorted({d["q"] for _, d in conc})
+        raise MachineryError("the specification's PromQL semantics disagrees with the real engine on %d results (%d queries: %s), e.g. %s"
+                             % (len(conc), len(qs), " ; ".join(qs[:8]), json.dumps(conc[0][1])[:1500]))
     # a model-level lead must reproduce on the real code, otherwise the specification is wrong
     vio_cases = {json.dumps(v["case"]["e"], sort_keys=True) for v in viols}
     lost = [k for k in lead_keys if k not in vio_cases]
     if lost and not drift:
         raise MachineryError("%d model-level counterexample(s) not reproduced on the real code (spec bug), e.g. %s" % (len(lost), lost[0][:600]))
     nontrivial = sum(1 for r in trace if (len(r["sets"]) > 0 and r["size"] > 1))
-    flagged = sum(1 for r in trace for c in r["c12"] if c["flags"])
+    flagged = len({c["q"] for r in trace for c in r["c12"] if c["flags"]})     # distinct flagged operations
     cov = {
         "states": sum(r["distinct"] or 0 for r in mc_runs),
         "transitions": sum(r["generated"] or 0 for r in mc_runs),
@@ -360,7 +361,7 @@ def run(ctx, prop, cases_override=None):
         "evaluations": sum(r["ndb"] for r in trace) + sum(c["nprem"] for r in trace for c in r["c12"]),
         "distinct_nontrivial": nontrivial if prop == "C04" else flagged,
         "rule": ("distinct expressions (deduplicated AST) that are not a bare leaf and for which the engine returned at least one series"
-                 if prop == "C04" else "binary sub-expressions carrying a new promql/impossible problem, each evaluated on premise databases"),
+                 if prop == "C04" else "distinct binary sub-expressions (by query text) carrying a new promql/impossible problem, each evaluated on premise databases"),
         "exhaustive": False,
         "expressions": len(trace),
         "engine_errors": sum(r["nerr"] for r in trace),
